@@ -57,6 +57,11 @@ type Fact struct {
 	SelArr []int64
 	Grid   [][]int64                   // two selector levels
 	Book   map[string]map[string]int64 // two selector levels
+	// values behind a pointer / inside an interface (what decoded settings look like)
+	PB *bool
+	PS *string
+	MI map[string]interface{} // scalar values only
+	AI []interface{}          // scalar values only
 
 	h *Hidden
 }
@@ -88,6 +93,9 @@ func (f *Fact) Pick(i int64, xs ...int64) int64 {
 	return xs[i]
 }
 func (f *Fact) GetSub() *Sub { return f.P }
+
+// Boom always panics (a user method that fails whenever it is called).
+func (f *Fact) Boom() bool { panic("boom") }
 
 // Two has two results (the engine cannot use it in an expression).
 func (f *Fact) Two() (int64, int64) { return 1, 2 }
@@ -177,6 +185,23 @@ func (f *Fact) Clone() *Fact {
 		c.PI = &v
 	}
 	c.P = cloneSub(f.P, 0)
+	if f.PB != nil {
+		v := *f.PB
+		c.PB = &v
+	}
+	if f.PS != nil {
+		v := *f.PS
+		c.PS = &v
+	}
+	if f.MI != nil {
+		c.MI = map[string]interface{}{}
+		for k, v := range f.MI {
+			c.MI[k] = v
+		}
+	}
+	if f.AI != nil {
+		c.AI = append([]interface{}{}, f.AI...)
+	}
 	if f.Arr != nil {
 		c.Arr = append([]int64{}, f.Arr...)
 	}
@@ -264,6 +289,18 @@ func (f *Fact) Dump() string {
 	}
 	if f.SelArr != nil {
 		fmt.Fprintf(&b, " SelArr:%v", f.SelArr)
+	}
+	if f.PB != nil {
+		fmt.Fprintf(&b, " PB:%v", *f.PB)
+	}
+	if f.PS != nil {
+		fmt.Fprintf(&b, " PS:%q", *f.PS)
+	}
+	if f.MI != nil {
+		fmt.Fprintf(&b, " MI:%#v", f.MI) // fmt prints maps with sorted keys
+	}
+	if f.AI != nil {
+		fmt.Fprintf(&b, " AI:%#v", f.AI)
 	}
 	if f.Grid != nil {
 		fmt.Fprintf(&b, " Grid:%v", f.Grid)
